@@ -228,7 +228,7 @@ pub fn check_lexical(sh: &Shared, c: &LCase) -> Check {
 
 pub fn small_scope() -> Vec<Case> {
     let mut out = vec![];
-    let atoms = [D::word("a"), D::atom(IVar, "x"), D::interval(7), D::placeholder(), D::atom(Op, "op")];
+    let atoms = [D::word("a"), D::atom(IVar, "x"), D::interval(0), D::placeholder(), D::atom(Op, "op")];
     for a in &atoms {
         for how in 0..2 {
             out.push(Case { d: a.clone(), how });
